@@ -68,22 +68,23 @@ type c05Tick struct {
 }
 
 type c05Case struct {
-	Failover bool      `json:"failover"`
-	Resetup  bool      `json:"resetup_crashed_hosts"`
-	Delay    int       `json:"failover_delay_s"`
-	Maint    int       `json:"maintenance"`
-	Pending  int       `json:"pending_request"`
-	MasterUp bool      `json:"manager_reaches_master"`
-	Reps     [2]int    `json:"replicas"`
-	List     int       `json:"list_size"` // 0 absent, 1 [h1], 2 [h1,h2], 3 [h1,h2,h3]
-	Last     int       `json:"last_switch"`
-	Async    bool      `json:"async_config"`
-	Ticks    []c05Tick `json:"ticks"`
+	Failover   bool      `json:"failover"`
+	Resetup    bool      `json:"resetup_crashed_hosts"`
+	Delay      int       `json:"failover_delay_s"`
+	Maint      int       `json:"maintenance"`
+	Pending    int       `json:"pending_request"`
+	MasterUp   bool      `json:"manager_reaches_master"`
+	MasterHung bool      `json:"master_answers_nobody_but_replicas_stay_connected,omitempty"`
+	Reps       [2]int    `json:"replicas"`
+	List       int       `json:"list_size"` // 0 absent, 1 [h1], 2 [h1,h2], 3 [h1,h2,h3]
+	Last       int       `json:"last_switch"`
+	Async      bool      `json:"async_config"`
+	Ticks      []c05Tick `json:"ticks"`
 }
 
 func (c c05Case) String() string {
-	return fmt.Sprintf("failover=%v resetup=%v delay=%ds maint=%d pending=%d masterUp=%v replicas=%v list=%d last=%d async=%v ticks=%+v",
-		c.Failover, c.Resetup, c.Delay, c.Maint, c.Pending, c.MasterUp, c.Reps, c.List, c.Last, c.Async, c.Ticks)
+	return fmt.Sprintf("failover=%v resetup=%v delay=%ds maint=%d pending=%d masterUp=%v masterHung=%v replicas=%v list=%d last=%d async=%v ticks=%+v",
+		c.Failover, c.Resetup, c.Delay, c.Maint, c.Pending, c.MasterUp, c.MasterHung, c.Reps, c.List, c.Last, c.Async, c.Ticks)
 }
 
 func c05Run(r *vt.Run, c c05Case) {
@@ -99,7 +100,9 @@ func c05Run(r *vt.Run, c c05Case) {
 		w.LogStmts = r.Replay != nil
 		now := time.Now()
 		m := w.Servers["h1"]
-		if !c.MasterUp {
+		if c.MasterHung {
+			m.Hung = true // pings time out; the replicas' IO threads stay connected ("running")
+		} else if !c.MasterUp {
 			m.Up = false
 		}
 		for i, k := range c.Reps {
@@ -270,7 +273,7 @@ func c05Run(r *vt.Run, c c05Case) {
 				running, others := 0, 2
 				for i, k := range c.Reps {
 					_ = i
-					if k == rRunning && c.MasterUp {
+					if k == rRunning && (c.MasterUp || c.MasterHung) {
 						running++
 					}
 				}
@@ -342,11 +345,12 @@ func checkC05(r *vt.Run) {
 					for pend := pNone; pend <= pAuto; pend++ {
 						reduced := !full && (maint != mNone || pend != pNone)
 						for health := hOK; health <= hPingFailedCrash; health++ {
-							for _, mup := range []bool{true, false} {
+							for ms := 0; ms < 3; ms++ {
+								mup, mhung := ms == 0, ms == 2
 								for r2 := rRunning; r2 <= rDead; r2++ {
 									for r3 := rRunning; r3 <= rDead; r3++ {
 										for list := 0; list <= 3; list++ {
-											if reduced && list != 3 {
+											if reduced && list != 3 || mhung && !full && list != 3 {
 												continue
 											}
 											for last := lsNone; last <= lsAutoRunning; last++ {
@@ -356,7 +360,7 @@ func checkC05(r *vt.Run) {
 												if idx%512 == 0 && r.Expired() {
 													return
 												}
-												run(c05Case{Failover: fo, Resetup: rs, Delay: delay, Maint: maint, Pending: pend, MasterUp: mup,
+												run(c05Case{Failover: fo, Resetup: rs, Delay: delay, Maint: maint, Pending: pend, MasterUp: mup, MasterHung: mhung,
 													Reps: [2]int{r2, r3}, List: list, Last: last, Ticks: []c05Tick{{0, health, false}}})
 											}
 										}
